@@ -80,6 +80,21 @@ RsTooBig ==
   /\ wobs' = [NoObs EXCEPT !.closed = TRUE]
   /\ sobs' = [NoSObs EXCEPT !.closed = TRUE]
 
+\* The nexus client as the connecting side (client.ConnectNet): the URL scheme selects the transport
+\* (ws, http = websocket; tcp, tcp4 = rawsocket; anything else is refused), the configured
+\* serialization selects subprotocol / serializer.  It joins iff the scheme's transport is the one
+\* the listener speaks; then it subscribes, publishes to itself (exclude_me = false, acknowledged)
+\* and must receive its own event.  listener = "ws" | "rs"
+SchemeKind(scheme) == CASE scheme \in {"ws", "http"} -> "ws" [] scheme \in {"tcp", "tcp4"} -> "rs" [] OTHER -> ""
+ClientConnect(listener, scheme, serialization) ==
+  /\ sphase = "new" /\ UNCHANGED <<wvars, origins>>
+  /\ IF SchemeKind(scheme) = listener
+     THEN \* (a whole little session: afterwards the client has left again)
+          /\ sphase' = "closed" /\ proto' = IF listener = "ws" THEN "wamp.2." \o serialization ELSE ""
+          /\ sobs' = [NoSObs EXCEPT !.reply = "EVENT"]
+     ELSE /\ sphase' = "closed" /\ proto' = ""
+          /\ sobs' = [NoSObs EXCEPT !.reply = "ERROR", !.closed = TRUE]
+
 SInit(kind, lim, org) ==
   /\ sphase = "new" /\ proto = "" /\ origins = org /\ sobs = NoSObs
   /\ WInitWith(lim)
@@ -96,6 +111,7 @@ MCSNext ==
   \/ Hello \/ Pub
   \/ \E m \in BOOLEAN, ln \in {0, 15}, sn \in {0, 1, 2, 3, 4}, rz \in BOOLEAN : RsHandshake(m, ln, sn, rz)
   \/ RsTooBig
+  \/ \E k \in {"ws", "rs"}, sc \in {"ws", "http", "tcp", "tcp4", "bogus"}, sr \in {"json", "msgpack", "cbor"} : ClientConnect(k, sc, sr)
 MCSInit == \E lim \in {0, 600}, org \in {"none", "list", "star"} : SInit("", lim, org)
 MCSSpec == MCSInit /\ [][MCSNext]_svars
 
@@ -105,7 +121,7 @@ S_Offered   == [][\A o \in Offers, g \in {"", "same", "good", "glob", "evil"} :
 \* a foreign origin gets in only where it was allowed
 S_Origin    == [][\A o \in Offers : Upgrade(o, "evil") /\ origins # "star" => sphase' = "closed" /\ sobs'.status = 403]_svars
 \* JSON is spoken in text frames, the binary serializers in binary frames
-S_FrameType == sobs.reply # "" /\ proto # "" => sobs.frame = (IF SerOf(proto) = "json" THEN "text" ELSE "binary")
+S_FrameType == sobs.reply \in {"WELCOME", "PUBLISHED"} /\ proto # "" => sobs.frame = (IF SerOf(proto) = "json" THEN "text" ELSE "binary")
 \* a closed connection stays closed
 S_Closed    == [][sphase = "closed" => sphase' = "closed"]_svars
 =============================================================================
